@@ -2296,4 +2296,578 @@ theorem resume_fuel (g : Graph) (d : Nat → Nat) (hr : Ranked g d) (hsym : Edge
   · rfl
 
 
+
+/-! ## dry runs: one block from the start to the exit -/
+
+theorem vis_of_nil (g : Graph) (s : State) (h : s.hidden = []) : vis g s = g := by
+  unfold vis; simp [h]
+
+theorem runDecision_dry (g : Graph) (s : State) (n w : Nat) (h : (g.node n).dryRun = true) :
+    runDecision g s n w = .ok (false, s, []) := by
+  unfold runDecision
+  dsimp only
+  cases (g.node n).sharedRoot <;> simp [h]
+
+theorem reverseNode_dry (g : Graph) (s : State) (n w : Nat) (h : (g.node n).dryRun = true) :
+    ∃ s3 e3, reverseNode g s n w = .ok (s3, e3) := by
+  unfold reverseNode
+  split
+  · exact ⟨_, _, rfl⟩
+  · have hc : ∀ sx, cleanDecision g sx n w = .ok false := by
+      intro sx; unfold cleanDecision; simp [h]
+    simp only [hc, ite_self]
+    exact ⟨_, _, rfl⟩
+
+theorem insertBy_length (le : Nat → Nat → Bool) (a : Nat) (l : List Nat) : (insertBy le a l).length = l.length + 1 := by
+  induction l with
+  | nil => rfl
+  | cons b r ih =>
+    unfold insertBy
+    split
+    · rfl
+    · simp [ih]
+
+theorem stableSort_length (le : Nat → Nat → Bool) (l : List Nat) : (stableSort le l).length = l.length := by
+  induction l with
+  | nil => rfl
+  | cons a r ih =>
+    unfold stableSort at ih ⊢
+    simp only [List.foldr_cons]
+    rw [insertBy_length, ih]; rfl
+
+theorem pickChild_some (g : Graph) (s : State) (n w : Nat) (h : isCleanupReady g s n w = false) :
+    ∃ c s', pickChild g s n w = some (c, s') := by
+  unfold isCleanupReady at h
+  rw [List.all_eq_false] at h
+  obtain ⟨⟨c, vms⟩, hc, hnot⟩ := h
+  simp only [Bool.or_eq_true, Bool.not_eq_true', not_or] at hnot
+  unfold pickChild
+  dsimp only
+  split
+  · rename_i hs
+    exfalso
+    have hlen := stableSort_length (fun a b => keyLe (pickKey g s false a) (pickKey g s false b))
+      (((g.node n).cleanup.map (·.1)).filter (fun c =>
+        relevant g w c && !(regWorkers (s.cr (g.node n).cls).droppedCleanup (some (g.node c).cls)).contains w))
+    rw [hs] at hlen
+    have hmem : c ∈ ((g.node n).cleanup.map (·.1)).filter (fun c =>
+        relevant g w c && !(regWorkers (s.cr (g.node n).cls).droppedCleanup (some (g.node c).cls)).contains w) := by
+      rw [List.mem_filter]
+      refine ⟨List.mem_map.2 ⟨(c, vms), hc, rfl⟩, ?_⟩
+      have h1 : relevant g w c = true := by simpa using hnot.1
+      have h2 := hnot.2
+      simp only [Bool.not_eq_true] at h2
+      rw [h1, h2]; rfl
+    have := List.length_pos_of_mem hmem
+    rw [← hlen] at this
+    simp at this
+  · exact ⟨_, _, rfl⟩
+
+theorem pickParent_some (g : Graph) (s : State) (n w : Nat) (h : isSetupReady g s n w = false) :
+    ∃ c s', pickParent g s n w = some (c, s') := by
+  unfold isSetupReady at h
+  rw [List.all_eq_false] at h
+  obtain ⟨⟨c, vms⟩, hc, hnot⟩ := h
+  simp only [Bool.or_eq_true, Bool.not_eq_true', not_or] at hnot
+  unfold pickParent
+  dsimp only
+  split
+  · rename_i hs
+    exfalso
+    have hlen := stableSort_length (fun a b => keyLe (pickKey g s true a) (pickKey g s true b))
+      (((g.node n).setup.map (·.1)).filter (fun p =>
+        relevant g w p && !(regWorkers (s.cr (g.node n).cls).droppedSetup (some (g.node p).cls)).contains w))
+    rw [hs] at hlen
+    have hmem : c ∈ ((g.node n).setup.map (·.1)).filter (fun p =>
+        relevant g w p && !(regWorkers (s.cr (g.node n).cls).droppedSetup (some (g.node p).cls)).contains w) := by
+      rw [List.mem_filter]
+      refine ⟨List.mem_map.2 ⟨(c, vms), hc, rfl⟩, ?_⟩
+      have h1 : relevant g w c = true := by simpa using hnot.1
+      have h2 := hnot.2
+      simp only [Bool.not_eq_true] at h2
+      rw [h1, h2]; rfl
+    have := List.length_pos_of_mem hmem
+    rw [← hlen] at this
+    simp at this
+  · exact ⟨_, _, rfl⟩
+
+theorem isOccupied_noMarks (g : Graph) (s : State) (n w : Nat) (h : ∀ i, (s.nd i).started = none) :
+    isOccupied g s n w = false := by
+  unfold isOccupied isStarted
+  split
+  · rfl
+  · have hs : sharedStarted g s n = [] := by
+      unfold sharedStarted
+      have : (g.copies n).filterMap (fun i => (s.nd i).started) = [] := by
+        rw [List.filterMap_eq_nil_iff]; intro i _; exact h i
+      rw [this]; rfl
+    have hthr : (max (mctOf g s n) 1 == (-1 : Int)) = false := by
+      have : (1 : Int) ≤ max (mctOf g s n) 1 := Int.le_max_right _ _
+      simp only [beq_eq_false_iff_ne, ne_eq]
+      omega
+    have hge : ¬ ((0 : Int) ≥ max (mctOf g s n) 1) := by
+      have : (1 : Int) ≤ max (mctOf g s n) 1 := Int.le_max_right _ _
+      omega
+    unfold scopeCount
+    rw [hs]
+    cases (g.node n).shape <;> simp [hthr, hge]
+
+theorem afterTraverse_dry_flow (g : Graph) (sF : State) (w next prev : Nat) (dir : Dir)
+    (hdry : (g.node next).dryRun = true) (hun : (sF.wd w).unexplored = false) :
+    (afterTraverse g sF w next prev dir).2.2 = .cont := by
+  have hrd := runDecision_dry g sF next w hdry
+  cases dir with
+  | up => rw [afterTraverse_up_eq g sF w next prev sF [] hrd]
+  | down =>
+    rw [afterTraverse_down_eq g sF w next prev sF [] hrd]
+    by_cases hcr : isCleanupReady g sF next w = true
+    · simp only [hcr, if_true, hun, Bool.and_false, Bool.false_eq_true, if_false]
+      obtain ⟨s3, e3, h3⟩ := reverseNode_dry g ((g.node next).setup.foldl (fun s (p, _) => dropChild g s p next w) sF) next w hdry
+      simp only [h3]
+    · simp only [hcr, Bool.false_eq_true, if_false]
+      obtain ⟨c, s3, h3⟩ := pickChild_some g sF next w (by simpa using hcr)
+      simp only [h3]
+
+theorem traverseNode_dry_flow (g : Graph) (s : State) (w next prev : Nat) (dir : Dir)
+    (hdry : (g.node next).dryRun = true) (hun : (s.wd w).unexplored = false) (hocc : isOccupied g s next w = false) :
+    (traverseNode g s w next prev dir).2.2 = .cont := by
+  unfold traverseNode
+  simp only [hocc, Bool.false_eq_true, if_false]
+  rw [runDecision_dry g _ next w hdry]
+  simp only [Bool.false_eq_true, if_false]
+  apply afterTraverse_dry_flow g _ w next prev dir hdry
+  have f1 : Fr s (finishTraverse (pullLocations g (s.setNd next (fun d => { d with started := some w })) next) next w) :=
+    ((fr_setNd s next _).trans (fr_pullLocations g _ next)).trans (fr_finishTraverse _ next w)
+  rw [f1.wd w]; exact hun
+
+
+/-- an iteration of a dry run continues or is the exit -/
+theorem iter_dry_flow (g : Graph) (d : Nat → Nat) (s : State) (w : Nat)
+    (hdry : ∀ n, n < g.nodes.length → (g.node n).dryRun = true)
+    (hnm : ∀ i, (s.nd i).started = none) (hwalk : Walk g d (s.wd w).path)
+    (hhead : (s.wd w).path.head? = some g.root)
+    (hun : 2 ≤ (s.wd w).path.length → (s.wd w).unexplored = false)
+    (hnr : 2 ≤ (s.wd w).path.length → isCleanupReady g s g.root w = false) :
+    (iter g s w).2.2 = .cont ∨
+      ((iter g s w).2.2 = .exit ∧ (iter g s w).2.1 = [Event.exit (g.worker w).id] ∧ ((iter g s w).1.wd w).pc = .done) := by
+  have hne : (s.wd w).path ≠ [] := by intro h; rw [h] at hhead; simp at hhead
+  have hw : w < s.workers.length := lt_of_path_ne_nil s w hne
+  unfold iter
+  dsimp only
+  by_cases hroot : isCleanupReady g s g.root w = true
+  · right
+    simp only [hroot, if_true]
+    have hlen1 : (s.wd w).path.length = 1 := by
+      have h0 : 0 < (s.wd w).path.length := List.length_pos_iff.mpr hne
+      by_cases h2 : 2 ≤ (s.wd w).path.length
+      · rw [hnr h2] at hroot; cases hroot
+      · omega
+    have hp : (s.wd w).path = [g.root] := by
+      match hq : (s.wd w).path, hlen1 with
+      | [x], _ => rw [hq] at hhead; simp at hhead; rw [hhead]
+    have hb : ((s.wd w).path == [g.root]) = true := by rw [hp]; simp
+    simp only [hb, if_true]
+    refine ⟨trivial, trivial, ?_⟩
+    rw [wd_setWd_eq s w _ hw]
+  · left
+    simp only [hroot, Bool.false_eq_true, if_false]
+    cases hl : (s.wd w).path.getLast? with
+    | none => rw [List.getLast?_eq_none_iff] at hl; exact absurd hl hne
+    | some next =>
+      dsimp only
+      by_cases hlen1 : ((s.wd w).path.length == 1) = true
+      · simp only [hlen1, if_true]
+        have hlen1' : (s.wd w).path.length = 1 := by simpa using hlen1
+        have hp := rev_one _ hlen1' next hl
+        rw [hp] at hhead
+        simp only [List.head?_cons, Option.some.injEq] at hhead
+        obtain ⟨c, s3, h3⟩ := pickChild_some g s next w (by rw [hhead]; simpa using hroot)
+        simp only [h3]
+      · simp only [hlen1, Bool.false_eq_true, if_false]
+        have hlen : 2 ≤ (s.wd w).path.length := by
+          have h0 : 0 < (s.wd w).path.length := List.length_pos_iff.mpr hne
+          have h1 : (s.wd w).path.length ≠ 1 := by simpa using hlen1
+          omega
+        have hocc : isOccupied g s next w = false := isOccupied_noMarks g s next w hnm
+        simp only [hocc, Bool.false_eq_true, if_false]
+        have hnx : next < g.nodes.length := walk_top_lt g d _ next hwalk hl hlen
+        have hadj : Adj g ((s.wd w).path.getD ((s.wd w).path.length - 2) 0) next := by
+          obtain ⟨rest, hq⟩ := rev_two _ next hl hlen
+          unfold Walk at hwalk
+          rw [hq] at hwalk
+          exact hwalk.1
+        have pushParent : isSetupReady g s next w = false →
+            (match pickParent g s next w with
+              | none => ((s, [], Flow.raise "RuntimeError") : Step)
+              | some (p, s') => (pushPath s' w p, [], Flow.cont)).2.2 = .cont := by
+          intro hsr
+          obtain ⟨c, s3, h3⟩ := pickParent_some g s next w hsr
+          simp only [h3]
+        by_cases hup : (((g.node next).cleanup.map (·.1)).contains ((s.wd w).path.getD ((s.wd w).path.length - 2) 0)) = true
+        · simp only [hup, if_true]
+          by_cases hsr : isSetupReady g s next w = true
+          · simp only [hsr, if_true]
+            exact traverseNode_dry_flow g s w next _ .up (hdry next hnx) (hun hlen) hocc
+          · simp only [hsr, Bool.false_eq_true, if_false]
+            exact pushParent (by simpa using hsr)
+        · simp only [hup, Bool.false_eq_true, if_false]
+          have hdn : (((g.node next).setup.map (·.1)).contains ((s.wd w).path.getD ((s.wd w).path.length - 2) 0)) = true := by
+            rcases hadj with h | h
+            · simpa using h
+            · exfalso; apply hup; simpa using h
+          simp only [hdn, if_true]
+          by_cases hsr : isSetupReady g s next w = true
+          · simp only [hsr, Bool.not_true, Bool.false_eq_true, if_false]
+            exact traverseNode_dry_flow g s w next _ .down (hdry next hnx) (hun hlen) hocc
+          · simp only [hsr, Bool.not_false, if_true]
+            exact pushParent (by simpa using hsr)
+
+
+theorem mem_of_mem_dropLast' (p : List Nat) (x : Nat) (h : x ∈ p.dropLast) : x ∈ p := by
+  rw [List.dropLast_eq_take] at h
+  exact List.mem_of_mem_take h
+
+theorem head?_dropLast' (p : List Nat) (h : 2 ≤ p.length) : p.dropLast.head? = p.head? := by
+  match p, h with
+  | a :: b :: t, _ => simp [List.dropLast]
+
+theorem head?_push (p : List Nat) (c : Nat) (h : p ≠ []) : (p ++ [c]).head? = p.head? := by
+  cases p with
+  | nil => exact absurd rfl h
+  | cons a t => rfl
+
+/-- along a walk the rank of the last position is below the rank of the first one -/
+theorem walkR_rank (g : Graph) (d : Nat → Nat) (q : List Nat) : ∀ (b a : Nat), WalkR g d (b :: a :: q) → q ≠ [] →
+    ∀ r x tl, (b :: a :: q).reverse = r :: x :: tl → rk g d a b < rk g d r x := by
+  induction q with
+  | nil => intro b a _ h; exact absurd rfl h
+  | cons y q' ih =>
+    intro b a hw _ r x tl hrev
+    obtain ⟨_, h2, h3⟩ := hw
+    simp only at h2
+    cases q' with
+    | nil =>
+      simp only [List.reverse_cons, List.reverse_nil, List.nil_append, List.cons_append, List.cons.injEq] at hrev
+      rw [← hrev.1, ← hrev.2.1]; exact h2
+    | cons z q'' =>
+      have hrev' : (a :: y :: z :: q'').reverse = r :: x :: tl.dropLast := by
+        have h0 : (b :: a :: y :: z :: q'').reverse = (a :: y :: z :: q'').reverse ++ [b] := by simp
+        rw [h0] at hrev
+        have hlen : 3 ≤ ((a :: y :: z :: q'').reverse).length := by simp
+        match hm : (a :: y :: z :: q'').reverse, hlen with
+        | r' :: x' :: t', _ =>
+          rw [hm] at hrev
+          simp only [List.cons_append, List.cons.injEq] at hrev
+          rw [hrev.1, hrev.2.1, ← hrev.2.2]
+          simp
+      have := ih a y h3 (by simp) r x _ hrev'
+      omega
+
+/-- the node at position one does not come back as a node reached downwards -/
+theorem walk_top_ne_pos1 (g : Graph) (d : Nat → Nat) (hr : Ranked g d) (hsym : EdgeSym g) (p : List Nat) (root next x : Nat)
+    (hwalk : Walk g d p) (hlen : 3 ≤ p.length) (hl : p.getLast? = some next) (hh : p.head? = some root)
+    (h1 : p[1]? = some x) (hx : x ∈ (g.node root).cleanup.map (·.1))
+    (hmode : isUp g (p.getD (p.length - 2) 0) next = false) : next ≠ x := by
+  intro hnx
+  obtain ⟨rest, hq⟩ := rev_two p next hl (by omega)
+  have hrest : rest ≠ [] := by
+    intro h0
+    have := congrArg List.length hq
+    rw [h0] at this
+    simp at this
+    omega
+  unfold Walk at hwalk
+  rw [hq] at hwalk
+  obtain ⟨tl, hp⟩ : ∃ tl, p = root :: x :: tl := by
+    match p, hlen with
+    | a :: b :: c :: t, _ =>
+      simp only [List.head?_cons, Option.some.injEq] at hh
+      simp only [List.getElem?_cons_succ, List.getElem?_cons_zero, Option.some.injEq] at h1
+      exact ⟨c :: t, by rw [hh, h1]⟩
+  have := walkR_rank g d rest next _ hwalk hrest root x tl (by rw [← hq, List.reverse_reverse]; exact hp)
+  unfold rk at this
+  rw [hmode, isUp_child g d hr hsym root x hx, hnx] at this
+  simp at this
+
+/-- a dry run of worker `w` in the middle of its only block -/
+structure DryInv (g : Graph) (d : Nat → Nat) (w : Nat) (s : State) : Prop where
+  good : Good g d w s
+  vis : s.hidden = []
+  noMarks : ∀ i, (s.nd i).started = none
+  head : (s.wd w).path.head? = some g.root
+  rel : ∀ x, x ∈ (s.wd w).path.tail → relevant g w x = true
+  pos1 : ∀ x, (s.wd w).path[1]? = some x →
+    x ∈ (g.node g.root).cleanup.map (·.1) ∧ dropped s w (false, (g.node g.root).cls, (g.node x).cls) = false
+
+theorem DryInv.rootNotReady {g : Graph} {d : Nat → Nat} {w : Nat} {s : State} (h : DryInv g d w s)
+    (hlen : 2 ≤ (s.wd w).path.length) : isCleanupReady g s g.root w = false := by
+  obtain ⟨x, hx⟩ : ∃ x, (s.wd w).path[1]? = some x := ⟨(s.wd w).path[1], List.getElem?_eq_getElem (by omega)⟩
+  obtain ⟨hmem, hnd⟩ := h.pos1 x hx
+  have hrel : relevant g w x = true := by
+    apply h.rel
+    match hp : (s.wd w).path, hlen with
+    | a :: b :: t, _ =>
+      rw [hp] at hx
+      simp only [List.getElem?_cons_succ, List.getElem?_cons_zero, Option.some.injEq] at hx
+      rw [← hx]; simp
+  unfold isCleanupReady
+  rw [List.all_eq_false]
+  obtain ⟨e, he, hex⟩ := List.mem_map.mp hmem
+  refine ⟨e, he, ?_⟩
+  obtain ⟨c, vms⟩ := e
+  simp only at hex
+  subst hex
+  unfold dropped at hnd
+  simp only [Bool.false_eq_true, if_false] at hnd
+  dsimp only
+  rw [hrel, hnd]; simp
+
+/-- two nodes of one class that concern the worker are equal -/
+def ClassInj (g : Graph) (w : Nat) : Prop :=
+  ∀ a b, a < g.nodes.length → b < g.nodes.length → relevant g w a = true → relevant g w b = true →
+    (g.node a).cls = (g.node b).cls → a = b
+
+theorem move_dry (g : Graph) (d : Nat → Nat) (hr : Ranked g d) (hsym : EdgeSym g) (w : Nat) (hinj : ClassInj g w)
+    (hroot : (g.node g.root).setup = []) (s s' : State) (h : DryInv g d w s) (m : Move g w s s') :
+    (s'.wd w).path.head? = some g.root ∧ (∀ x, x ∈ (s'.wd w).path.tail → relevant g w x = true) ∧
+    (∀ x, (s'.wd w).path[1]? = some x →
+      x ∈ (g.node g.root).cleanup.map (·.1) ∧ dropped s' w (false, (g.node g.root).cls, (g.node x).cls) = false) := by
+  have hne : (s.wd w).path ≠ [] := by intro h0; have := h.head; rw [h0] at this; simp at this
+  have hlast1 : ∀ last, (s.wd w).path.length = 1 → (s.wd w).path.getLast? = some last → last = g.root := by
+    intro last hl1 hl
+    have hp := rev_one _ hl1 last hl
+    have := h.head
+    rw [hp] at this
+    simpa using this
+  -- a push
+  have push : ∀ last c, (s.wd w).path.getLast? = some last → (s'.wd w).path = (s.wd w).path ++ [c] →
+      relevant g w c = true → (∀ k, dropped s' w k = dropped s w k) →
+      ((s.wd w).path.length = 1 → c ∈ (g.node g.root).cleanup.map (·.1) ∧
+        dropped s w (false, (g.node g.root).cls, (g.node c).cls) = false) →
+      (s'.wd w).path.head? = some g.root ∧ (∀ x, x ∈ (s'.wd w).path.tail → relevant g w x = true) ∧
+      (∀ x, (s'.wd w).path[1]? = some x →
+        x ∈ (g.node g.root).cleanup.map (·.1) ∧ dropped s' w (false, (g.node g.root).cls, (g.node x).cls) = false) := by
+    intro last c hl hp hrel hD h1
+    rw [hp]
+    refine ⟨by rw [head?_push _ c hne]; exact h.head, ?_, ?_⟩
+    · intro x hx
+      rw [List.tail_append_of_ne_nil hne] at hx
+      rcases List.mem_append.mp hx with hx | hx
+      · exact h.rel x hx
+      · rw [List.mem_singleton.mp hx]; exact hrel
+    · intro x hx
+      rw [hD]
+      by_cases hl1 : (s.wd w).path.length = 1
+      · have : ((s.wd w).path ++ [c])[1]? = some c := by
+          rw [List.getElem?_append_right (by omega), hl1]; simp
+        rw [this] at hx
+        simp only [Option.some.injEq] at hx
+        rw [← hx]; exact h1 hl1
+      · have h0 : 0 < (s.wd w).path.length := List.length_pos_iff.mpr hne
+        rw [List.getElem?_append_left (by omega)] at hx
+        exact h.pos1 x hx
+  cases m with
+  | pushUp last c hl hp hc hnd hD hrel =>
+    refine push last c hl hp hrel hD (fun hl1 => ?_)
+    rw [hlast1 last hl1 hl, hroot] at hc
+    simp at hc
+  | pushDown last c hl hp hc hnd hmode hD hrel =>
+    refine push last c hl hp hrel hD (fun hl1 => ?_)
+    rw [hlast1 last hl1 hl] at hc hnd
+    exact ⟨hc, hnd⟩
+  | pop next hl hlen hp hD hk hnew =>
+    rw [hp]
+    refine ⟨by rw [head?_dropLast' _ hlen]; exact h.head, ?_, ?_⟩
+    · intro x hx
+      rw [List.tail_dropLast] at hx
+      exact h.rel x (mem_of_mem_dropLast' _ x hx)
+    · intro x hx
+      rw [List.getElem?_dropLast] at hx
+      split at hx
+      · rename_i h1lt
+        obtain ⟨hmem, hndx⟩ := h.pos1 x hx
+        refine ⟨hmem, ?_⟩
+        cases hdx : dropped s' w (false, (g.node g.root).cls, (g.node x).cls)
+        · rfl
+        · exfalso
+          rcases hnew _ hdx with h0 | ⟨hmode, hcls⟩
+          · rw [hndx] at h0; cases h0
+          · simp only at hmode hcls
+            have hrx : relevant g w x = true := by
+              apply h.rel
+              match hpq : (s.wd w).path, hlen with
+              | a :: b :: t, _ =>
+                rw [hpq] at hx
+                simp only [List.getElem?_cons_succ, List.getElem?_cons_zero, Option.some.injEq] at hx
+                rw [← hx]; simp
+            have hrn : relevant g w next = true := by
+              apply h.rel
+              match hpq : (s.wd w).path, hlen with
+              | a :: b :: t, _ =>
+                rw [hpq] at hl
+                have : next ∈ (a :: b :: t) := List.mem_of_getLast? hl
+                have hb : (b :: t).getLast? = some next := by simpa [List.getLast?_cons_cons] using hl
+                exact List.mem_of_getLast? hb
+            have hxN : x < g.nodes.length := lt_of_setup_mem g x g.root ((hsym g.root x).mpr hmem)
+            have hnN : next < g.nodes.length := walk_top_lt g d _ next h.good.walk hl hlen
+            have hxn : x = next := hinj x next hxN hnN hrx hrn hcls
+            exact walk_top_ne_pos1 g d hr hsym _ g.root next x h.good.walk (by omega) hl h.head hx hmem hmode.symm hxn.symm
+      · cases hx
+
+
+theorem iter_cont_marks (gv : Graph) (hsym : EdgeSym gv) (s : State) (w : Nat) (hc : (iter gv s w).2.2 = .cont) (i : Nat) :
+    ((iter gv s w).1.nd i).started = (s.nd i).started ∨ ((iter gv s w).1.nd i).started = none := by
+  obtain ⟨_, h⟩ := iter_ok gv hsym s w
+  rcases h with ⟨he, _⟩ | ⟨next, _, _, _, _, hfl⟩
+  · rcases he.marks i with h1 | h1 | h1
+    · exact Or.inl h1
+    · exact Or.inr h1
+    · exact absurd h1.1 (by simp)
+  · rcases hfl with ⟨what, h1, _⟩ | ⟨h1, _⟩ <;> rw [h1] at hc <;> cases hc
+
+/-- one iteration of a dry run: it continues with a smaller measure, or it is the exit -/
+theorem iterL_dry (g : Graph) (d : Nat → Nat) (hr : Ranked g d) (hsym : EdgeSym g) (w : Nat) (hinj : ClassInj g w)
+    (hroot : (g.node g.root).setup = []) (hdry : ∀ n, n < g.nodes.length → (g.node n).dryRun = true)
+    (s : State) (h : DryInv g d w s) :
+    ((iterL g s w).2.2 = .cont ∧ phi g (iterL g s w).1 w < phi g s w ∧ DryInv g d w (iterL g s w).1) ∨
+    ((iterL g s w).2.2 = .exit ∧ (iterL g s w).2.1 = [Event.exit (g.worker w).id] ∧ ((iterL g s w).1.wd w).pc = .done) := by
+  -- the iteration proper, from a state with the invariant
+  have core : ∀ s1 : State, DryInv g d w s1 → (2 ≤ (s1.wd w).path.length → (s1.wd w).unexplored = false) →
+      ((iter g s1 w).2.2 = .cont ∧ phi g (iter g s1 w).1 w < phi g s1 w ∧ DryInv g d w (iter g s1 w).1) ∨
+      ((iter g s1 w).2.2 = .exit ∧ (iter g s1 w).2.1 = [Event.exit (g.worker w).id] ∧ ((iter g s1 w).1.wd w).pc = .done) := by
+    intro s1 h1 hun
+    rcases iter_dry_flow g d s1 w hdry h1.noMarks h1.good.walk h1.head hun h1.rootNotReady with hc | hx
+    · left
+      have hv : vis g s1 = g := vis_of_nil g s1 h1.vis
+      have hc' : (iter (vis g s1) s1 w).2.2 = .cont := by rw [hv]; exact hc
+      obtain ⟨m, k⟩ := iter_cont g d hr hsym s1 w h1.good.nodesLen h1.good.cls h1.good.walk hun hc'
+      rw [hv] at m k
+      obtain ⟨p1, p2⟩ := move_dec g d hr hsym w s1 _ h1.good.walk m
+      obtain ⟨q1, q2, q3⟩ := move_dry g d hr hsym w hinj hroot s1 _ h1 m
+      refine ⟨hc, p1, ⟨h1.good.keep k p2, by rw [k.hidden]; exact h1.vis, fun i => ?_, q1, q2, q3⟩⟩
+      rcases iter_cont_marks g hsym s1 w hc i with h2 | h2
+      · rw [h2]; exact h1.noMarks i
+      · exact h2
+    · exact Or.inr hx
+  unfold iterL
+  split
+  · rename_i hcond
+    rw [vis_of_nil g s h.vis]
+    refine core s h (fun hlen => ?_)
+    exfalso
+    rw [vis_of_nil g s h.vis] at hcond
+    simp only [Bool.or_eq_true, decide_eq_true_eq] at hcond
+    rcases hcond with h0 | h0
+    · rw [h.rootNotReady hlen] at h0; cases h0
+    · omega
+  · rename_i hcond
+    dsimp only
+    have hlen : 2 ≤ (s.wd w).path.length := by
+      simp only [Bool.or_eq_true, decide_eq_true_eq, not_or] at hcond
+      omega
+    have hne : (s.wd w).path ≠ [] := by intro h0; rw [h0] at hlen; simp at hlen
+    have hw : w < s.workers.length := lt_of_path_ne_nil s w hne
+    obtain ⟨p1, p2, p3, p4, p5, p6⟩ := prepare_explored g s w h.good.explored hw
+    have hhid : (prepare g s w).hidden = [] := by
+      have := (prepare_frame g s w).2.2.2
+      rw [h.vis] at this
+      exact List.eq_nil_iff_forall_not_mem.mpr (fun x hx => by simpa using this x hx)
+    have hd1 : DryInv g d w (prepare g s w) := by
+      refine ⟨⟨by rw [p2]; exact h.good.nodesLen, fun n hn => by rw [p1]; exact h.good.cls n hn, p6,
+        by rw [p4]; exact h.good.walk⟩, hhid, fun i => ?_, by rw [p4]; exact h.head, by rw [p4]; exact h.rel, ?_⟩
+      · rw [nd_of_nodes_eq p2]; exact h.noMarks i
+      · intro x hx
+        rw [p4] at hx
+        rw [dropped_of_regs s _ p1]
+        exact h.pos1 x hx
+    rw [vis_of_nil g _ hhid]
+    have := core (prepare g s w) hd1 (fun _ => p5 hne)
+    rw [phi_congr g s (prepare g s w) w p1 (p4 w)] at this
+    exact this
+
+theorem dryInv_setLoop {g : Graph} {d : Nat → Nat} {w : Nat} {s : State} (h : DryInv g d w s) :
+    DryInv g d w (s.setWd w (fun d => { d with pc := .loop })) := by
+  have hp : ((s.setWd w (fun d => { d with pc := .loop })).wd w).path = (s.wd w).path :=
+    wd_setWd_proj (·.path) s w (fun d => { d with pc := .loop }) (fun _ => rfl) w
+  refine ⟨(good_setLoop h.good).1, h.vis, h.noMarks, by rw [hp]; exact h.head, by rw [hp]; exact h.rel, ?_⟩
+  intro x hx
+  rw [hp] at hx
+  rw [dropped_setWd]
+  exact h.pos1 x hx
+
+/-- the whole block of a dry run: it ends with the exit event, the worker is done -/
+theorem runLoop_dry (g : Graph) (d : Nat → Nat) (hr : Ranked g d) (hsym : EdgeSym g) (w : Nat) (hinj : ClassInj g w)
+    (hroot : (g.node g.root).setup = []) (hdry : ∀ n, n < g.nodes.length → (g.node n).dryRun = true)
+    (fuel : Nat) (s : State) (evs : List Event) (h : DryInv g d w s) (hf : phi g s w < fuel) :
+    ∃ s' evs', runLoop g w fuel s evs = (s', evs' ++ [Event.exit (g.worker w).id]) ∧ (s'.wd w).pc = .done := by
+  induction fuel generalizing s evs with
+  | zero => omega
+  | succ fuel ih =>
+    unfold runLoop
+    dsimp only
+    have h0 := dryInv_setLoop h
+    have hp0 := (good_setLoop h.good).2
+    rcases iterL_dry g d hr hsym w hinj hroot hdry _ h0 with ⟨hc, hphi, hd1⟩ | ⟨hx, hev, hpc⟩
+    · split
+      · next s1 e heq =>
+        rw [heq] at hphi hd1
+        exact ih s1 _ hd1 (by dsimp only at hphi; omega)
+      · next s1 e heq => rw [heq] at hc; cases hc
+      · next s1 e heq => rw [heq] at hc; cases hc
+      · next s1 e what heq => rw [heq] at hc; cases hc
+    · split
+      · next s1 e heq => rw [heq] at hx; cases hx
+      · next s1 e heq => rw [heq] at hx; cases hx
+      · next s1 e heq =>
+        rw [heq] at hev hpc
+        dsimp only at hev hpc
+        exact ⟨s1, evs, by rw [hev], hpc⟩
+      · next s1 e what heq => rw [heq] at hx; cases hx
+
+/-- decidable form of `ClassInj` -/
+def classInjB (g : Graph) (w : Nat) : Bool :=
+  (List.range g.nodes.length).all (fun a => (List.range g.nodes.length).all (fun b =>
+    !(relevant g w a && relevant g w b && (g.node a).cls == (g.node b).cls) || a == b))
+
+theorem classInjB_sound {g : Graph} {w : Nat} (h : classInjB g w = true) : ClassInj g w := by
+  intro a b ha hb hra hrb hcls
+  unfold classInjB at h
+  rw [List.all_eq_true] at h
+  have h1 := h a (List.mem_range.mpr ha)
+  rw [List.all_eq_true] at h1
+  have h2 := h1 b (List.mem_range.mpr hb)
+  simpa [hra, hrb, hcls] using h2
+
+/-- **Dry runs terminate in one block**: on a pre-parsed acyclic graph all of whose nodes are dry-run nodes, the first
+scheduler step of a worker (from the initial state, with fuel `≥ bound g`) is its whole traversal: it ends with the
+exit event and the worker is `done`; nothing suspends, nothing raises -/
+theorem dry_run_one_block (g : Graph) (d : Nat → Nat) (hr : Ranked g d) (hsym : EdgeSym g) (w : Nat)
+    (hw : w < g.workers.length) (hinj : ClassInj g w) (hroot : (g.node g.root).setup = [])
+    (hdry : ∀ n, n < g.nodes.length → (g.node n).dryRun = true) (hflat : noFlatB g = true)
+    (ncls : Nat) (hcls : ∀ n, n < g.nodes.length → (g.node n).cls < ncls)
+    (store : List (String × List (String × String))) (fuel : Nat) (hf : bound g ≤ fuel) :
+    ∃ s' evs', resume g (initState g ncls store) w ⟨none, 0⟩ fuel = (s', evs' ++ [Event.exit (g.worker w).id]) ∧
+      (s'.wd w).pc = .done := by
+  have hwd : (initState g ncls store).wd w = { path := [g.root] } := by
+    unfold initState State.wd
+    simp only [List.getD_eq_getElem?_getD, List.getElem?_map, List.getElem?_eq_getElem hw]
+    rfl
+  have hgood : Good g d w (initState g ncls store) :=
+    good_at_root g d w _ (by simp [initState]) (clsOK_init g ncls store [] hcls) (explored_of_noFlat hflat _) (by rw [hwd])
+  have hnd : ∀ i, ((initState g ncls store).nd i).started = none := by
+    intro i
+    unfold initState State.nd
+    simp only [List.getD_eq_getElem?_getD, List.getElem?_map]
+    cases g.nodes[i]? <;> rfl
+  have hdi : DryInv g d w (initState g ncls store) :=
+    ⟨hgood, rfl, hnd, by rw [hwd]; rfl, by rw [hwd]; intro x hx; simp at hx, by rw [hwd]; intro x hx; simp at hx⟩
+  have hres : resume g (initState g ncls store) w ⟨none, 0⟩ fuel = runLoop g w fuel (initState g ncls store) [] := by
+    unfold resume
+    rw [hwd]
+  rw [hres]
+  obtain ⟨s', evs', h1, h2⟩ := runLoop_dry g d hr hsym w hinj hroot hdry fuel _ [] hdi
+    (Nat.lt_of_lt_of_le (phi_lt_bound g d hr _ w hgood.walk) hf)
+  exact ⟨s', evs', h1, h2⟩
+
+
 end I2N.Trav.Term
